@@ -10,10 +10,10 @@ class CovarianceStatAggregation(Aggregation):
         self.stat_helper = CovarianceCounter(method="pearson")
 
     def merge(self, row, schema):
-        self.stat_helper.add(row.eval(self.column1, schema), row.eval(self.column2, schema))
+        self.stat_helper.add(self.column1.eval(row, schema), self.column2.eval(row, schema))
 
     def mergeStats(self, other, schema):
-        self.stat_helper.merge(other)
+        self.stat_helper.merge(other.stat_helper)
 
     def eval(self, row, schema):
         raise NotImplementedError
